@@ -118,6 +118,30 @@ def mk_subsets(name, which, depth, also_neighbours=False):
     return body
 
 
+def mk_ligand_subsets(name, pairs):
+    """remove any one atom (any two atoms) of a ligand: the run completes and every output section is producible"""
+    def body(ctx):
+        names = [l[12:16].strip() for l in M.text(name).split('\n') if l.startswith('HETATM')]
+        first = ctx.choice('removed_first', names)
+        removed = {first}
+        if pairs:
+            second = ctx.choice('removed_second', names)
+            ctx.assume(names.index(second) >= names.index(first))      # second == first: a single atom removed
+            removed.add(second)
+        try:
+            mol = M.run(M.text(name), keep=lambda a: a.name not in removed, write=False)
+            import propka.output as O
+            txt = O.get_determinant_section(mol, 'AVR', mol.version.parameters) + O.get_summary_section(mol, 'AVR', mol.version.parameters)
+            txt += O.get_folding_profile_section(mol, conformation='AVR', reference='neutral', window=mol.options.window)
+            txt += O.get_charge_profile_section(mol, conformation='AVR')
+        except Exception as e:  # noqa
+            import traceback
+            ctx.claim('no-unhandled-error', False, detail='removed %r: %s: %s\n%s' % (sorted(removed), type(e).__name__, e, traceback.format_exc()[-700:]))
+            return
+        ctx.claim('no-unhandled-error', True)
+    return body
+
+
 def o_whole_residues(ctx):
     """delete any subset of whole residues of the 8-residue peptide"""
     residues = parse('pep8')
@@ -190,6 +214,14 @@ def obligations(tier):
             obs.append(Obligation('O1-atom-subsets-first-residue[%s]' % name, mk_subsets(name, 0, 99), code=code,
                                   bounds='every subset of the atoms of the FIRST residue (chain start) of %s' % name, max_paths=400000, shards=16, wall_s=1500,
                                   claim_doc='as O1', stop_on_violation=False))
+    for name, pairs in ((('lig_MTX', True), ('lig_KNI', False)) if tier == 'quick' else (('lig_MTX', True), ('lig_KNI', True), ('lig_MTX_B', True))):
+        n = len([l for l in M.text(name).split('\n') if l.startswith('HETATM')])
+        obs.append(Obligation('O1-ligand-atom-subsets[%s,%s]' % (name, 'pairs' if pairs else 'single'), mk_ligand_subsets(name, pairs),
+                              code=['propka/ligand.py:assign_sybyl_type', 'propka/ligand.py:is_ring_member', 'propka/ligand.py:are_atoms_planar', 'propka/group.py:is_ligand_group_by_groups',
+                                    'propka/protonate.py:Protonate.protonate_atom', 'propka/run.py:single', 'propka/output.py:get_*_section'],
+                              bounds='ligand %s (%d atoms): every %s removed (%d structures)' % (name, n, 'single atom and every pair of atoms' if pairs else 'single atom', n * (n + 1) // 2 if pairs else n),
+                              claim_doc='no exception; all four output sections producible', max_paths=200000, shards=16 if pairs else 4, wall_s=170 if tier == 'quick' else 1500,
+                              stop_on_violation=False))
     obs.append(Obligation('O2-whole-residues[pep8]', o_whole_residues, code=code, bounds='8-residue peptide: every proper subset of residues deleted (255 structures)',
                           claim_doc='no exception; remaining side-chain sites reported once', max_paths=100000, shards=8, stop_on_violation=False))
     obs.append(Obligation('O3-rejections', o_rejections, code=['propka/input.py:read_molecule_file', 'propka/input.py:read_pdb'],
